@@ -241,13 +241,136 @@ impl SubCheckT for TopDown {
     }
 }
 
+// ---------------------------------------------------------------------------
+// CNFs over 20..34 variables: thousands of component-cache entries per compilation
+// ---------------------------------------------------------------------------
+
+#[derive(Clone, Debug, Serialize, Deserialize)]
+pub struct BigTopDownCase {
+    pub nv: u8,
+    pub clauses: Vec<Vec<(u8, bool)>>,
+    pub seed: u64,
+}
+
+pub struct TopDownLarge;
+
+pub fn run_large(case: &BigTopDownCase, st: &mut Stats) -> CaseResult {
+    use crate::big::*;
+    use rsdd::builder::bdd::RobddBuilder;
+    use rsdd::builder::cache::AllIteTable;
+    use rsdd::builder::BottomUpBuilder;
+    let nv = case.nv as usize;
+    let mut clauses: Vec<Clause> = case.clauses.iter().map(|c| c.iter().map(|(v, p)| ((*v as usize) % nv, *p)).collect()).collect();
+    // make sure the variable count is nv (a tautology on the last variable changes nothing else)
+    clauses.push(vec![(nv - 1, true), (nv - 1, false)]);
+    let lits: Vec<Vec<rsdd::repr::Literal>> = clauses.iter().map(|c| c.iter().map(|(v, p)| rsdd::repr::Literal::new(VarLabel::new_usize(*v), *p)).collect()).collect();
+    let cnf = Cnf::new(&lits);
+    let n = cnf.num_vars();
+    if n != nv {
+        return Ok(());
+    }
+    let order = if case.seed & 3 == 0 { (0..n).collect::<Vec<_>>() } else { permutation(case.seed, n) };
+    let labels: Vec<VarLabel> = order.iter().map(|v| VarLabel::new_usize(*v)).collect();
+    let std_b = StandardDecisionNNFBuilder::new(VarOrder::new(&labels));
+    let sem_b = SemanticDecisionNNFBuilder::<{ primes::U64_LARGEST }>::new(VarOrder::new(&labels));
+    // reference: the bottom-up compilation of the same CNF under the same order (another compiler altogether)
+    let ref_b = RobddBuilder::<AllIteTable<BddPtr>>::new(VarOrder::new(&labels));
+    let reference = ref_b.compile_cnf(&cnf);
+    let ref_measure = bdd_measure(reference);
+    let mut probes: Vec<Vec<bool>> = (0..32).map(|k| assignment(case.seed, k, n)).collect();
+    for (ci, c) in clauses.iter().enumerate().take(64) {
+        probes.push(falsifying(case.seed, ci as u64, n, c));
+    }
+    for (store, r) in [("standard", std_b.compile_cnf_topdown(&cnf)), ("semantic", sem_b.compile_cnf_topdown(&cnf))] {
+        ensure!(
+            r.is_false() == (ref_measure == 0.0),
+            format!("C06/false-constant-iff-unsat:{}", store),
+            "{}-variable CNF: the compiler returned {} but the CNF has {} (bottom-up reference measure {})",
+            n,
+            if r.is_false() { "the false constant" } else { "a non-false diagram" },
+            if ref_measure == 0.0 { "no model" } else { "models" },
+            ref_measure
+        );
+        let m = bdd_measure(r);
+        ensure!(
+            m == ref_measure,
+            format!("C06/wrong-function:{}", store),
+            "{}-variable CNF {:?} (order seed {}): the top-down diagram is satisfied by a fraction {} of all assignments, the bottom-up compilation of the same CNF by {}",
+            n,
+            case.clauses,
+            case.seed,
+            m,
+            ref_measure
+        );
+        for a in probes.iter() {
+            let want = cnf_eval(&clauses, a);
+            ensure!(
+                bdd_eval(r, a) == want,
+                format!("C06/wrong-function:{}", store),
+                "{}-variable CNF {:?}: the top-down diagram is {} on an assignment where the CNF is {}",
+                n,
+                case.clauses,
+                !want,
+                want
+            );
+            // no path decides a variable twice: the path this assignment takes
+            let mut seen = vec![false; n];
+            let mut cur = r;
+            loop {
+                let node = match cur {
+                    BddPtr::Reg(x) | BddPtr::Compl(x) => x,
+                    _ => break,
+                };
+                let v = node.var.value_usize();
+                ensure!(!seen[v], format!("C06/variable-decided-twice:{}", store), "a path of the {}-variable diagram decides variable {} twice", n, v);
+                seen[v] = true;
+                cur = if a[v] { node.high } else { node.low };
+            }
+        }
+    }
+    st.flag("large.unsat", ref_measure == 0.0);
+    st.add("large.reference_nodes", bdd_nodes(reference).len() as u64);
+    if ref_measure > 0.0 && ref_measure < 1.0 {
+        st.mark_nontrivial();
+    }
+    Ok(())
+}
+
+impl SubCheckT for TopDownLarge {
+    type Case = BigTopDownCase;
+    const NAME: &'static str = "topdown_many_variables";
+    const RULE: &'static str = "random CNFs over 20..34 variables (mostly 26..34) with 1.08..2.0 (mostly below 1.35) clauses per variable (3 literals, some 2), linear or pseudo-random decision order, both node stores: thousands of residual components per compilation share the component cache, whose key is only a hash. The result must be the false constant iff the bottom-up BDD of the same CNF (same order) is, must be satisfied by exactly the same fraction of assignments (uniform measure computed by the harness on both diagrams, exact in f64), must agree with direct evaluation of the clauses on 32 pseudo-random and up to 64 clause-falsifying assignments, and the paths those assignments take must not repeat a variable. Non-trivial: satisfiable and not a tautology";
+    fn cases(tier: Tier) -> u32 {
+        tier.pick(400, 12_000)
+    }
+    fn strategy(_tier: Tier) -> BoxedStrategy<BigTopDownCase> {
+        (prop_oneof![1 => 20u8..=25, 4 => 26u8..=34], prop_oneof![4 => 108u32..=135, 1 => 136u32..=200])
+            .prop_flat_map(|(nv, ratio)| {
+                let m = (nv as u32 * ratio / 100) as usize;
+                (
+                    Just(nv),
+                    proptest::collection::vec(
+                        prop_oneof![5 => proptest::collection::vec((any::<u8>(), any::<bool>()), 3), 1 => proptest::collection::vec((any::<u8>(), any::<bool>()), 2)],
+                        m..=m + 4,
+                    ),
+                    any::<u64>(),
+                )
+            })
+            .prop_map(|(nv, clauses, seed)| BigTopDownCase { nv, clauses, seed })
+            .boxed()
+    }
+    fn run(case: &BigTopDownCase, st: &mut Stats) -> CaseResult {
+        run_large(case, st)
+    }
+}
+
 pub fn property() -> Property {
     Property {
         id: "C06",
-        subs: vec![sub::<TopDown>()],
+        subs: vec![sub::<TopDown>(), sub::<TopDownLarge>()],
         fuzz: vec![],
         assumptions: vec![
-            "CNFs over <= 7 variables, <= 12 clauses",
+            "truth-table oracle: CNFs over <= 7 variables; sub-check topdown_many_variables: 20..34 variables, held to the bottom-up compilation of the same CNF (measure) and to direct evaluation on sampled assignments",
             "the decision order is a permutation of 0..Cnf::num_vars() (largest label + 1), as every caller in the repository passes",
             "the semantic store is exercised over the 64-bit prime only (a 2^-64 hash collision is treated as impossible)",
         ],
